@@ -37,6 +37,12 @@ def apply(Y, u, op):
         return u.parent
     if name in ("origin", "relative"):
         return getattr(u, name)()
+    if name.endswith("_strsub"):
+        # query values that are instances of a str subclass (str-based Enum members, multidict.istr, ...)
+        S = type("S", (str,), {})
+        q = a[0]
+        q = {S(k): (S(v) if isinstance(v, str) else v) for k, v in q.items()}
+        return getattr(u, name[:-7])(q)
     if name in ("with_query", "update_query", "extend_query"):
         q = a[0]
         if isinstance(q, list):
@@ -102,6 +108,7 @@ def op(txt, hosts=None, with_join=True):
         st.tuples(st.just("with_query"), query_arg(txt)),
         st.tuples(st.just("update_query"), query_arg(txt)),
         st.tuples(st.just("extend_query"), query_arg(txt)),
+        st.tuples(st.sampled_from(["with_query_strsub", "update_query_strsub", "extend_query_strsub"]), st.dictionaries(txt, st.one_of(txt, st.integers(-5, 5), st.floats(1e15, 1e22)), min_size=1, max_size=3)),
         st.tuples(st.just("without_query_params"), st.lists(txt, max_size=2)),
         st.tuples(st.just("with_fragment"), st.one_of(st.none(), txt)),
         st.tuples(st.just("with_name"), seg, keep),
